@@ -366,8 +366,8 @@ impl ShardState {
         for (k, n) in &o.counts {
             *self.report.classes.entry((*k).to_string()).or_default() += n;
         }
-        if o.nontrivial {
-            let fresh = self.nontrivial.insert(h);
+        if o.nontrivial || self.report.samples.is_empty() {
+            let fresh = if o.nontrivial { self.nontrivial.insert(h) } else { true };
             if fresh && self.report.samples.len() < 3 {
                 let mut v = sample();
                 let text = v.to_string();
